@@ -9,27 +9,27 @@ TECH = "contract-based deductive verification: WP-style VC generation over go/ss
 NOTE = "Trusted: go/ssa translation, the govc encoding, the SMT solvers, intrinsic axioms (copy/append/len/io.Writer), allocation succeeds, slices < 2^48 elements, append returns fresh memory, floats/maps/strings uninterpreted. Spec functions (zz_spec_verif.go) are the meaning of the formats. Abstracted calls, trusted contracts and undecided obligations are listed in the evidence file of each run."
 
 CLAIMED = {
- "C01": ("Partial, proof level for what is covered: for all 32-bit pixel values the encoder- and decoder-side VP8L pixel kernels (add/sub pixels, average2, select, clamped add-subtract full/half, the 14 predictor modes, cross-colour forward/inverse pixel functions, subtract-green/add-green loops with quantified loop contracts) equal specification functions written from the lossless bitstream specification, and each forward/inverse pair is inverse. Not covered: entropy coding, LZ77/colour-cache, transform selection, the image-level composition of the round trip.", NOTE, "DESIGN.md §6 C01"),
- "C03": ("Partial, proof level for what is covered: the decoder's pixel kernels and the 14 spatial predictors of internal/dsp equal the specification's functions for all inputs; add-green inverse transform loop proved with quantified invariants and frame conditions. Not covered: prefix-code construction and decodeImageData functional correctness, 2-D transform loops (non-linear index arithmetic), assembly kernels.", NOTE, "DESIGN.md §6 C03"),
- "C05": ("Proof (SMT unsat for every generated obligation, all inputs, all loop iterations) that no index, slice, nil-dereference, division, make or explicit panic can occur and that every annotated loop terminates, in every function under contract of internal/container, mux (demux side) and the animation decoder helpers. Byte strings, lengths and struct fields are fully symbolic; integers are exact bit-vectors. Functions outside the listed set (codec cores) are not covered; time/memory proportionality and goroutine deadlock are not decided.", NOTE, "DESIGN.md §6 C05"),
- "C09": ("Partial, proof level for what is covered: alphaBlendNRGBA equals the specification's blend function for all 2^64 input pairs; the key-frame predicate is sound (a frame is treated as key frame only if it is first, or covers the canvas and overwrites, or the canvas is transparent after a covering/key-frame dispose); Reset re-establishes the initial decoder state field by field and clears both canvases (quantified); clearCanvas and Frame.Bounds contracts. Not covered: the 2-D compositing loops of compositeFrame/fillRect (non-linear index arithmetic is beyond the solvers; see DESIGN.md).", NOTE, "DESIGN.md §6 C09"),
- "C13": ("Partial, proof level for what is covered: the portable Go pixel kernels (the ones every non-amd64/arm64 build runs) equal the specification functions for all inputs, so portable-vs-spec is decided; Not covered: assembly kernels and their Go wrappers (no Go verifier can read them), the GOARCH build matrix.", NOTE, "DESIGN.md §6 C13"),
- "C15": ("Partial, proof level for what is covered: Encode hands the caller's options (Exact, Method) unchanged to the lossless encoder on both the metadata and the no-metadata path, for every options value (call-site contracts), so the embedded lossless bitstream cannot depend on the presence of metadata through the options. Not covered yet: byte-exact chunk layout of writeRIFFExtended, the mux/demux metadata path.", NOTE, "DESIGN.md §6 C15"),
- "C16": ("Partial, proof level for what is covered: the colour model DecodeConfig announces equals the dynamic type decodeLossy/decodeFrame return, for every parsed frame (YCbCr exactly for lossy frames without alpha bytes); DecodeConfig's width/height are the parser's. The codec cores are summarised by trusted contracts (result non-nil on success). Not covered yet: header-parser triplet agreement, cross-view agreement of demuxer/animation reader.", NOTE, "DESIGN.md §6 C16"),
+ "C01": ("Partial, proof level for what is covered: for all 32-bit pixel values the encoder- and decoder-side VP8L pixel kernels (add/sub pixels, average2, select, clamped add-subtract full/half, the 14 predictor modes, cross-colour forward/inverse pixel functions, subtract-green/add-green loops with quantified loop contracts) equal specification functions written from the lossless bitstream specification, and each forward/inverse pair is inverse; the decoder's inverse-transform chain never unpacks a packed palette image in place (call-site contract on applyInverseTransforms: source and destination of a packed colour-indexing inverse are different allocations - this obligation found the defect repaired in e5ffc85). Not covered: entropy coding, LZ77/colour-cache, transform selection, the image-level composition of the round trip.", NOTE, "DESIGN.md §6 C01"),
+ "C03": ("Partial, proof level for what is covered: the decoder's pixel kernels and the 14 spatial predictors of internal/dsp equal the specification's functions for all inputs; add-green and cross-colour inverse transform loops with quantified invariants and frame conditions; the inverse-transform chain applies a packed colour-indexing inverse out of place (defect repaired in e5ffc85, libwebp-written files with palette plus predictor transforms decoded to wrong pixels). Not covered: prefix-code construction and decodeImageData functional correctness, 2-D transform loops (non-linear index arithmetic), assembly kernels.", NOTE, "DESIGN.md §6 C03"),
+ "C05": ("Proof (SMT unsat for every generated obligation, all inputs, all loop iterations) that no index, slice, nil-dereference, division, make or explicit panic can occur and that every annotated loop terminates, in every function under contract of internal/container, mux (demux side and writer helpers), internal/bitio's lossless bit reader (with its representation invariant), the VP8L header decoder, the ALPH header decoder, the animation decoder helpers and the dsp kernels under contract. Byte strings, lengths and struct fields are fully symbolic; integers are exact bit-vectors. Found and repaired: NewDemuxer panic on RIFF size < 4 (2287490). Functions outside the listed set (codec cores: Huffman/LZ77 decoding, VP8 macroblock parsing) are not covered; time/memory proportionality and goroutine deadlock are not decided.", NOTE, "DESIGN.md §6 C05"),
+ "C09": ("Partial, proof level for what is covered: alphaBlendNRGBA equals the specification's blend function for all 2^64 input pairs; the key-frame predicate is sound; Reset re-establishes the initial decoder state field by field and clears both canvases (quantified); clearCanvas and Frame.Bounds contracts; compositeFrame disposes with the previous frame's rectangle and method and blends with the frame's own blend mode (call-site contracts on fillRect/blendFrame arguments). Not covered: the 2-D pixel loops inside fillRect/blendFrame (non-linear index arithmetic is beyond the solvers; see DESIGN.md).", NOTE, "DESIGN.md §6 C09"),
+ "C13": ("Partial, proof level for what is covered: the portable Go kernels every build without assembly runs (VP8L pixel kernels and predictors, green transforms, inverse DCT/WHT, loop-filter primitives, clip tables, fancy upsampler safety) equal architecture-independent specification functions for all inputs, with Go's int modelled at 64 bits; in addition the module is type-checked for GOARCH=386 and GOARCH=arm on every run (obligations webp.module:typecheck:*; go/types is the deciding back end there) - this found the 32-bit build break in internal/dsp/random.go (repaired in eafa83a). Not covered: assembly kernels and their Go wrappers (no Go verifier can read them), 32-bit int overflow behaviour of the remaining code, big-endian targets.", NOTE, "DESIGN.md §6 C13"),
+ "C15": ("Partial, proof level for what is covered: Encode hands the caller's options (Exact, Method) unchanged to the lossless encoder on both the metadata and the no-metadata path, for every options value (call-site contracts), so the embedded bitstream cannot depend on the presence of metadata through the options; writeRIFF passes bitstream, alpha data, dimensions and the three blobs unchanged to the extended writer and uses the simple form only when there is nothing to announce; the muxer's VP8X flags byte announces exactly the blobs present and writeDataChunk copies a blob byte for byte. Not covered: encode.go writeRIFFExtended's own byte layout (does not discharge in time), the demux side of the metadata round trip.", NOTE, "DESIGN.md §6 C15"),
+ "C16": ("Partial, proof level for what is covered: the colour model DecodeConfig announces equals the dynamic type decodeLossy/decodeFrame return, for every parsed frame (found and repaired: 657b517); DecodeConfig's width/height are the parser's; the header parsers of the two container readers agree (whenever internal/container accepts a VP8/VP8L header, mux's parser accepts it with the same width, height and alpha flag - lemmas over the real functions); the VP8L header decoder reads the same 14+14+1+3 bit fields. The codec cores are summarised by trusted contracts. Not covered: agreement with the dimensions the codec cores finally allocate, animation reader view.", NOTE, "DESIGN.md §6 C16"),
  "C20": ("Partial, proof level for what is covered: validateConfig accepts only the documented integer ranges and rejects the listed violations; every resolve* helper equals its documented default function; at the call sites that configure the VP8 encoder and the alpha encoder every sentinel resolves to the documented default (Segments/Pass including 0), for all option values; nil options are replaced by DefaultOptions before use. Not covered: floating-point fields (NaN/Inf clauses), panics deep inside the encoders, byte-identical output (follows from equal configurations only under determinism).", NOTE, "DESIGN.md §6 C20"),
 }
 
 
 CLAIMED.update({
- "C02": ("Partial, proof level for what is covered: chunk size arithmetic (header + payload + pad) and the simple-format RIFF writer of the muxer: the RIFF size field equals the bytes written minus 8, the file length is even, the image chunk carries its exact length and payload bytes (ghost byte log of the io.Writer); the ALPH header byte written by encodeAlphaInternal carries the filter actually applied and the final compression method. Not covered yet: encode.go writeRIFFExtended layout, VP8 frame header/partition table of assembleFrame, conformance of entropy-coded payloads, an independent decoder.", NOTE, "DESIGN.md §6 C02"),
- "C04": ("Partial, proof level for what is covered: the per-segment loop-filter parameters (level with segment/mode deltas and clamp, interior limit by sharpness, edge limit, high-edge-variance threshold, inner-edge flag) computed by precomputeFilterStrengths equal specification functions written from RFC 6386 §9.6/§15.2 for every header value and all 4x2 slots. Not covered yet: inverse DCT/WHT kernels, loop-filter pixel functions, bool decoder, ALPH unfilter kernels, upsampling.", NOTE, "DESIGN.md §6 C04"),
- "C06": ("Partial, proof level for what is covered: when the encoder switches the segment map off every macroblock is re-assigned to segment 0 (what the decoder will assume), for any number of macroblocks (quantified loop contract). Not covered yet: reconstruction kernel twins (iTransform vs transform), dequantisation agreement, token recorder vs coefficient parser.", NOTE, "DESIGN.md §6 C06"),
- "C07": ("Partial, proof level for what is covered: encodeAlphaInternal stores, for a raw (uncompressed) payload, exactly the plane produced by the filter named in the header byte (also on the fallback from lossless to raw), the header's filter/method/pre-processing fields are the ones used, and the payload length is 1 + width*height. Not covered yet: filter/unfilter inverse pairs, the lossless alpha path, quantizeLevels (floating point).", NOTE, "DESIGN.md §6 C07"),
+ "C02": ("Partial, proof level for what is covered: chunk size arithmetic; the simple-format writers of the muxer and of Encode (writeRIFFSimple: RIFF size field = bytes written - 8, even length, chunk length field and payload bytes, via a ghost byte log of the io.Writer); Encode chooses the simple form only when there is no alpha data and no metadata and passes its blobs unchanged to the extended writer (call-site contracts); the muxer's VP8X header (flags announce exactly the blobs present, reserved bytes zero, canvas-1 in 24 bits); the VP8 frame assembled by assembleFrame (3-byte frame tag with key-frame/version/show bits and the 19-bit first-partition size equal to len(part0), start code, 14-bit dimensions, partition size table entries equal to the token partition lengths, every partition copied byte for byte at the offset the header announces) and emitFrame rejects partitions that do not fit the size fields (found and repaired: 23a0f1d); the ALPH header byte of encodeAlphaInternal. Not covered: encode.go writeRIFFExtended (its obligations do not discharge in time on any installed solver), conformance of the entropy-coded payloads, an independent decoder.", NOTE, "DESIGN.md §6 C02"),
+ "C04": ("Partial, proof level for what is covered: the decoder's inverse DCT (transformOne, DC-only and AC3 shortcuts) equals the RFC 6386 section 14.3 inverse transform followed by the clamped add, for all coefficient and prediction values (per-pixel spec function, 16 cases each); transformWHT equals the section 14.3 inverse Walsh-Hadamard; the loop-filter primitives (clip tables against their arithmetic definitions, needsFilter, hev, the simple, inner and macroblock-edge filters doFilter2/4/6) equal spec functions written from RFC 6386 section 15 for all pixel values and thresholds; the per-segment filter parameters of precomputeFilterStrengths equal the section 9.6/15.2 formulas; the horizontal ALPH unfilter row. Not covered: bool decoder, coefficient token parsing, intra prediction, the 2-D drivers that walk macroblocks (non-linear index arithmetic), vertical/gradient unfilters, upsampling arithmetic beyond safety.", NOTE, "DESIGN.md §6 C04"),
+ "C06": ("Partial, proof level for what is covered: the encoder's reconstruction transform iTransformOne computes exactly the decoder's transformOne on every coefficient block and prediction (both equal the same RFC 6386 spec function, for all inputs), likewise the inverse WHT; when the encoder switches the segment map off every macroblock is re-assigned to segment 0 (quantified loop contract); the frame header assembleFrame writes announces the partition sizes the decoder will use. Not covered: dequantisation agreement, token recorder vs coefficient parser, intra predictors, probability updates.", NOTE, "DESIGN.md §6 C06"),
+ "C07": ("Partial, proof level for what is covered: encodeAlphaInternal stores, for a raw payload, exactly the plane produced by the filter named in the header byte (also on the fallback from lossless to raw), the header's filter/method/pre-processing fields are the ones used, payload length 1 + width*height; the horizontal unfilter row is the prefix sum the filter inverts; the lossless alpha path's inverse transforms never unpack a palette in place (repaired in e5ffc85: lossless alpha planes at Method 6 decoded wrong). Not covered: vertical/gradient filter pairs, quantizeLevels (floating point), the VP8L coding of the plane.", NOTE, "DESIGN.md §6 C07"),
  "C08": ("Partial, proof level for what is covered: after a key frame the encoder's previous-frame rectangle is the whole canvas; the blend-admissibility lemma (blending a frame pixel over the previous canvas pixel reproduces it when it is opaque or both are the same transparent pixel); pixels judged similar always have identical alpha. The predicate isLosslessBlendingPossible really uses is refuted by the solver for unchanged semi-transparent pixels: recorded as a known finding. Not covered: sub-frame rectangle search, frame codec round trip, timing fields.", NOTE, "DESIGN.md §6 C08"),
  "C11": ("Partial, proof level for what is covered: acquireDecoder hands out a lossy decoder whose every field is either zero (proved field by field; a coverage obligation fails when a struct field is not classified) or scratch that a named phase rewrites; for the loop-filter strength table the rewrite of all 8 slots is itself proved. Not covered: the other scratch fields' overwrite proofs (listed as assumptions), encoder pools, lossless pools.", NOTE, "DESIGN.md §6 C11"),
- "C14": ("Partial, proof level for what is covered: chunkTotalSize/frameSubChunksSize equal the sum of individually padded chunks; writeDataChunk emits FourCC, little-endian length, the payload bytes and a zero pad byte and leaves earlier output untouched (quantified, ghost byte log); writeANMFChunk's size field equals the payload bytes written after it; assembleSimple's RIFF layout; splitAlphaAndBitstream's ALPH-prefix convention; demux-side parsers are panic-free and terminate. Not covered yet: assembleExtended as a whole, mux->demux field round trip lemmas.", NOTE, "DESIGN.md §6 C14"),
- "C17": ("Partial, proof level for what is covered (container level): a simple-format file is accepted only if the whole padded image chunk lies inside the buffer and the frame payload is exactly the declared byte range; a non-animated extended file is accepted only with an image frame (the zero-frame prefix defect was found by this obligation and repaired); chunk header reads are exact. Not covered: the bit readers' end-of-stream discipline inside the codecs.", NOTE, "DESIGN.md §6 C17"),
- "C18": ("Partial, proof level for what is covered: pixels the animation encoder treats as similar (and therefore blends instead of overwriting) always have identical alpha, for all pixel values and thresholds; the ALPH-prefix convention of frame payloads handed to the muxer (splitAlphaAndBitstream). Not covered: that the lossy frame encoder attaches the alpha plane at all (encodeFrameForAnimation), VP8 colour.", NOTE, "DESIGN.md §6 C18"),
+ "C14": ("Partial, proof level for what is covered: chunkTotalSize/frameSubChunksSize equal the sum of individually padded chunks; writeDataChunk emits FourCC, little-endian length, the payload bytes and a zero pad byte and leaves earlier output untouched (quantified, ghost byte log); writeANMFChunk's size field equals the payload bytes written after it; assembleSimple's RIFF layout; assembleExtended's RIFF/VP8X header: flags announce exactly the blobs present and the animation bit, reserved bytes zero, canvas-1 in 24 bits; the simple layout is chosen only when no frame carries an ALPH chunk (found and repaired: d1e1ad9); splitAlphaAndBitstream's ALPH-prefix convention; demux-side parsers are panic-free and terminate. Not covered: positions of the chunks after the VP8X header, mux->demux field round trip lemmas.", NOTE, "DESIGN.md §6 C14"),
+ "C17": ("Partial, proof level for what is covered (container and bit-reader level): a simple-format file is accepted only if the whole padded image chunk lies inside the buffer and the frame payload is exactly the declared byte range; a non-animated extended file is accepted only with an image frame (found and repaired: 6ff93ee); chunk header reads are exact; the lossless bit reader never reads past its buffer, sets its end-of-stream flag when it runs out, and keeps its representation invariant. Not covered: how the codec cores react to the end-of-stream flag.", NOTE, "DESIGN.md §6 C17"),
+ "C18": ("Partial, proof level for what is covered: encodeFrameForAnimation, for a lossy frame whose encoder produced alpha data, returns a payload that starts with an ALPH chunk header carrying the exact length, then exactly those alpha bytes, the pad byte, then the VP8 bitstream (quantified postcondition) and asks the encoder for unquantised alpha (call-site contracts, also on the single-frame shortcut) - found and repaired: 7f143a2; the muxer takes that convention apart (splitAlphaAndBitstream) and never writes such a frame in the simple layout (d1e1ad9); pixels the animation encoder treats as similar always have identical alpha. Not covered: that the codec cores reproduce the alpha plane (C07), codec choice in mixed mode (the encoders are abstracted at that call), VP8 colour.", NOTE, "DESIGN.md §6 C18"),
 })
 
 NOT_APPLICABLE = {
